@@ -81,6 +81,8 @@ def _damage(data, how):
         by[(4 * n) // 5] ^= 0xFF
     elif how == 'trunc':
         by = by[:(2 * n) // 3]
+    elif how.startswith('hi'):
+        by[int(how[2:])] = 0xD8            # one byte above 0x7f at a given position (e.g. inside a name)
     elif how.startswith('bytes'):
         by = by[:int(how[5:])]
     elif how.startswith('cut'):
@@ -396,6 +398,12 @@ def gen_cases(tier):
             for names in (('a', 'b'), ('b', 'a')):
                 yield {'tool': tool, 'files': [[names[0] + EXT[g0], g0], [names[1] + EXT[g1], g1]], 'channels': [], 'sel': sel}
             yield {'tool': tool, 'files': [['a' + EXT[g1], g1], ['b' + EXT[g0], g0], ['c' + EXT[gb], gb]], 'channels': ['GR'] if tool != 'bit' else [], 'sel': sel}
+        # file names: one name a prefix of the other (no extension), a name beginning with a dot, a directory name with glob characters
+        for dmg in ('mid', 'trunc') + (('hi181',) if tool == 'bit' else ()):
+            yield {'tool': tool, 'files': [['RUN1', '%s:%s' % (g0, dmg)], ['RUN1_A', g1]], 'channels': []}
+            yield {'tool': tool, 'files': [['RUN1', '%s:%s' % (g1, dmg)], ['RUN1_A', g0], ['RUN1_B', g1]], 'channels': []}
+        yield {'tool': tool, 'files': [['.W3' + EXT[g0], g0], ['a' + EXT[g1], g1]], 'channels': []}
+        yield {'tool': tool, 'files': [['Well [1]/a' + EXT[g0], g0], ['Well [1]/b' + EXT[g0], '%s:trunc' % g0], ['w*/c' + EXT[g1], g1], ['d' + EXT[g1], g1]], 'channels': []}
         # output name collisions
         yield {'tool': tool, 'files': [['a' + EXT[g0], g0], ['a' + EXT[g0].upper(), gb]], 'channels': []}
         # a long batch handled by one process (sequential run, one worker, two workers)
